@@ -7,7 +7,7 @@
    flattened list, natural layout, default argument promotions). *)
 From Coq Require Import ZArith List Bool Lia.
 From Cproc Require Import Model.Layout Spec.AbiLayout Spec.QbeAgg Model.Emittype
-  Proofs.EmittypeProofs Proofs.EmittypeInv Proofs.EmittypeCalls.
+  Proofs.EmittypeProofs Proofs.EmittypeInv Proofs.EmittypeCalls Proofs.EmittypeBridge.
 Import ListNotations.
 Open Scope Z_scope.
 
@@ -64,6 +64,20 @@ Theorem C08_types_before_use :
 Proof. exact types_before_use. Qed.
 Print Assumptions C08_types_before_use.
 
+(* the domain is not an ad-hoc predicate: what naturalb demands of a record (offsets, size, alignment) is C06's ABI
+   layout of the same members declared plainly, and what cproc's own addmember/tagspec arithmetic computes for them *)
+Theorem C08_natural_is_abi :
+  forall u k sz al ms, naturalb (CRec u k false sz al ms) = true ->
+    spec_layout rules_sysv k false (items_of ms) = Some (mkT sz al false false false false false false, members_of ms).
+Proof. exact natural_is_abi. Qed.
+Print Assumptions C08_natural_is_abi.
+
+Theorem C08_natural_is_cproc_layout :
+  forall u k sz al ms, naturalb (CRec u k false sz al ms) = true ->
+    record_layout k false (items_of ms) = Ok (mkT sz al false false false false false false, members_of ms).
+Proof. exact natural_is_cproc_layout. Qed.
+Print Assumptions C08_natural_is_cproc_layout.
+
 (* the member walk of emittype terminates within its fuel on every member list *)
 Theorem C08_walk_fuel_enough :
   forall sc mp fuel l, (length l < fuel)%nat -> walk_struct fuel sc mp l <> None.
@@ -96,6 +110,37 @@ Theorem C08_descriptor_classes_refuted :
   option_map l_size (desc_info true wit_bitfield_float 1) = Some 8 /\ csize wit_bitfield_float = 16.
 Proof. exact descriptor_classes_refuted. Qed.
 Print Assumptions C08_descriptor_classes_refuted.
+
+(* known finding emittype-bitfield-smaller-unit-chosen *)
+Theorem C08_descriptor_smaller_unit_refuted :
+  record_layout true false [INamed tshort 0 (Some 7); INamed tchar 0 (Some 1)]
+    = Ok (mkT 2 2 false false false false false false, [mkM true 2 0 0 9; mkM true 1 0 7 0]) /\
+  desc_info true wit_bitfield_small 1 = Some (mkLI 1 1 [(0, 1, KInt)]) /\
+  csize wit_bitfield_small = 2 /\ calign wit_bitfield_small = 2.
+Proof. exact descriptor_smaller_unit_refuted. Qed.
+Print Assumptions C08_descriptor_smaller_unit_refuted.
+
+(* known finding emittype-bitfield-unit-overlaps-previous *)
+Theorem C08_descriptor_overlap_refuted :
+  record_layout true false [INamed tint 0 None; INamed (mkT 8 4 false false false false false false) 0 None;
+                            INamed tchar 0 None; INamed tlong8 0 (Some 3)]
+    = Ok (mkT 16 8 false false false false false false,
+          [mkM true 4 0 0 0; mkM true 8 4 0 0; mkM true 1 12 0 0; mkM true 8 8 40 21]) /\
+  option_map l_size (desc_info true wit_bitfield_overlap 1) = Some 24 /\ csize wit_bitfield_overlap = 16 /\
+  e_out (emittype true wit_bitfield_overlap est0) =
+    [mkTD 2 None (BStruct [(FBase Fw, 1); (FBase Fw, 1)]);
+     mkTD 1 None (BStruct [(FBase Fw, 1); (FType 2, 1); (FBase Fl, 1)])].
+Proof. exact descriptor_overlap_refuted. Qed.
+Print Assumptions C08_descriptor_overlap_refuted.
+
+(* known finding emittype-bitfield-padding-lost *)
+Theorem C08_descriptor_padding_refuted :
+  record_layout true false [IUnnamedBf tchar 7; INamed tdouble 0 None]
+    = Ok (mkT 16 8 false false false false false false, [mkM true 8 8 0 0]) /\
+  desc_info true wit_bitfield_pad 1 = Some (mkLI 8 8 [(0, 8, KFlt)]) /\
+  cinfo wit_bitfield_pad = mkLI 16 8 [(8, 8, KFlt)] /\ naturalb wit_bitfield_pad = false.
+Proof. exact descriptor_padding_refuted. Qed.
+Print Assumptions C08_descriptor_padding_refuted.
 
 (* D23, known finding emittype-packed-layout *)
 Theorem C08_descriptor_packed_refuted :
